@@ -583,3 +583,86 @@ pub fn chroma_mv(cmd: &Value) -> Value {
     }
     ev
 }
+
+
+// ------------------------------------------------------------------ C17: several instances on several threads
+
+fn digest(ev: &Value) -> Value {
+    // FNV-1a over the observable part of the event (outcome, state, header, planes, probe)
+    let mut h: u64 = 0xcbf29ce484222325;
+    for k in ["ret", "last", "ref", "keys", "has_last", "hdr", "w", "h", "cspr", "y", "cb", "cr", "probe", "ropt"] {
+        let s = ev[k].to_string();
+        for b in s.as_bytes() {
+            h ^= *b as u64;
+            h = h.wrapping_mul(0x100000001b3);
+        }
+        h ^= 0xff;
+        h = h.wrapping_mul(0x100000001b3);
+    }
+    json!([(h >> 34) as i64, ((h >> 4) & 0x3fff_ffff) as i64])
+}
+
+/// {"op":"threads","insts":[[cmd..]..],"order":[i..]|null,"groups":[[i,j..]..]}
+/// Every instance lives on its own thread.  With "order" a turnstile forces exactly that
+/// interleaving of calls; without it the threads run freely.
+pub fn threads(cmd: &Value) -> Vec<Value> {
+    use std::sync::{Arc, Condvar, Mutex};
+    let mut ev = cmd.clone();
+    let insts: Vec<Vec<Value>> = cmd["insts"]
+        .as_array()
+        .map(|a| a.iter().map(|x| x.as_array().cloned().unwrap_or_default()).collect())
+        .unwrap_or_default();
+    let order: Option<Vec<usize>> = cmd["order"].as_array().map(|a| a.iter().map(|x| x.as_u64().unwrap_or(0) as usize).collect());
+    let turn = Arc::new((Mutex::new(0usize), Condvar::new()));
+    let mut handles = Vec::new();
+    for (i, cmds) in insts.into_iter().enumerate() {
+        let turn = turn.clone();
+        let order = order.clone();
+        handles.push(
+            std::thread::Builder::new()
+                .stack_size(16 << 20)
+                .spawn(move || {
+                    let mut ctx = Ctx::default();
+                    let mut out = Vec::new();
+                    for c in cmds.iter() {
+                        if let Some(ord) = &order {
+                            let (m, cv) = &*turn;
+                            let mut t = m.lock().unwrap();
+                            while *t < ord.len() && ord[*t] != i {
+                                t = cv.wait(t).unwrap();
+                            }
+                            drop(t);
+                        }
+                        let mut evs = history(&mut ctx, c);
+                        for e in evs.iter_mut() {
+                            e["digest"] = digest(e);
+                        }
+                        out.extend(evs);
+                        if order.is_some() {
+                            let (m, cv) = &*turn;
+                            let mut t = m.lock().unwrap();
+                            *t += 1;
+                            cv.notify_all();
+                        }
+                    }
+                    out
+                })
+                .unwrap(),
+        );
+    }
+    let mut all = Vec::new();
+    let mut ok = true;
+    for h in handles {
+        match h.join() {
+            Ok(v) => all.push(v),
+            Err(_) => {
+                ok = false;
+                all.push(vec![]);
+            }
+        }
+    }
+    ev["ret"] = json!(if ok { "ok" } else { "thread-panicked" });
+    ev["evs"] = json!(all);
+    ev.as_object_mut().unwrap().remove("insts");
+    vec![ev]
+}
